@@ -156,7 +156,17 @@ func (c *RegConfig) ParseOrResolveBlocklisted(provided string) (string, bool) {
 	if err != nil {
 		return "", lookup
 	}
-	if addr == nil || c.isBlocklistedCovertAddr(addr.IP) {
+	if addr == nil || len(addr.IP) == 0 {
+		// An empty host resolves to an address without an IP, which matches no subnet and which
+		// net.Dial would take to mean the local host.
+		return "", lookup
+	}
+	if addr.Zone != "" && addr.IP.To4() != nil {
+		// Only IPv6 addresses have zones. "1.2.3.4%zone" (from a zoned IPv4-mapped address) is not
+		// an IP literal, net.Dial would try to resolve it as a name.
+		return "", lookup
+	}
+	if c.isBlocklistedCovertAddr(addr.IP) {
 		return "", lookup
 	}
 	return net.JoinHostPort(addr.String(), port), lookup
